@@ -74,20 +74,22 @@ Proof. exact retrieve_end_to_end. Qed.
 Print Assumptions C01_end_to_end.
 
 
-(* ---------- from the path text, for paths of name, index and wildcard steps (ChainParse.v, ChainAddr.v) ---------- *)
-From JP Require Import Grammar KeyDefs KeyParse IdxParse WildParse ChainParse ChainAddr.
+(* ---------- from the path text, for paths of name, index, wildcard and recursive-descent steps (ChainParse.v, ChainAddr.v) ---------- *)
+From JP Require Import Grammar KeyDefs KeyParse IdxParse WildParse RecParse ChainParse ChainAddr.
 
 (* For EVERY path made of name steps (in any of the three spellings), index steps [digits] and wildcard steps
-   .* / [*]: the text is accepted, and a retrieval returns exactly the values the steps reach — a name or an index at
-   most one value, a wildcard all members in ascending key order / all elements in index order — in that order, each
-   with its location in accessor mode; it fails exactly when they reach nothing.  nav_all is defined on documents
-   alone (no syntax tree): this is the step-by-step definition of the property, stated about the path TEXT. *)
+   .* / [*], each possibly preceded by `..`: the text is accepted, and a retrieval returns exactly the values the
+   steps reach — a name or an index at most one value, a wildcard all members in ascending key order / all elements
+   in index order, `..step` the step applied to every container below (and including) the value in pre-order — in
+   that order, each with its location in accessor mode; it fails exactly when they reach nothing.  nav_all is
+   defined on documents alone (no syntax tree): this is the step-by-step definition of the property, stated about
+   the path TEXT. *)
 Theorem C01_chain_retrieval : forall cfg parse_float regex_ok ffun afun regex_match,
   (forall f v w, small v -> ffun f v = Some w -> small w) ->
   (forall f l w, Forall small l -> afun f l = Some w -> small w) ->
-  forall s r doc st, forallb step_ok (s :: r) = true -> small doc -> ok st ->
-  exists t, parse_with cfg parse_float regex_ok jsonpath_grammar (chain_path (s :: r)) = ParseOk t /\
-            match nav_all (s :: r) ([], doc) with
+  forall x r doc st, forallb rstep_ok (x :: r) = true -> small doc -> ok st ->
+  exists t, parse_with cfg parse_float regex_ok jsonpath_grammar (chain_path (x :: r)) = ParseOk t /\
+            match nav_all (x :: r) ([], doc) with
             | [] => exists e, fst (eval_run ffun afun regex_match t doc st) = OErr e
             | l => fst (eval_run ffun afun regex_match t doc st) = OOk (map (loc_result cfg) l)
             end.
@@ -96,6 +98,8 @@ Print Assumptions C01_chain_retrieval.
 
 Example C01_chain_example :
   let doc := VObj [("b", VArr [VNum (num_of_Z 1); VNum (num_of_Z 2)]); ("a", VArr [VNum (num_of_Z 3)])]%string in
-  map snd (nav_all [SWild true; SIdx [48]] ([], doc)) = [VNum (num_of_Z 3); VNum (num_of_Z 1)] /\
-  forallb step_ok [SWild true; SIdx [48]] = true.
-Proof. cbv zeta. split; vm_compute; reflexivity. Qed.
+  map snd (nav_all [RPlain (SWild true); RPlain (SIdx [48])] ([], doc)) = [VNum (num_of_Z 3); VNum (num_of_Z 1)] /\
+  map snd (nav_all [RRec (SIdx [48])] ([], doc)) = [VNum (num_of_Z 3); VNum (num_of_Z 1)] /\
+  chain_path [RRec (SIdx [48]); RPlain (SWild true)] = [36; 46; 46; 91; 48; 93; 46; 42] /\
+  forallb rstep_ok [RRec (SIdx [48]); RPlain (SWild true)] = true.
+Proof. cbv zeta. repeat split; vm_compute; reflexivity. Qed.
